@@ -1,13 +1,14 @@
 #!/bin/bash
 # Build the framework offline from files on disk: generated tables, then the proof modules and drivers of every
-# registered check (harness/drivers.txt, written by mkmanifest.py).  Targets are built one by one so that one broken
-# module cannot hide the others; a target that fails here is reported by its own check.
+# registered check (harness/drivers.txt, written by mkmanifest.py).  First one lake invocation with all targets (lake
+# schedules independent modules in parallel and keeps going past a failing one), then target by target (a no-op for
+# what is built) so that one broken module cannot hide the others; a target that fails here is reported by its own check.
 cd "$(dirname "$0")/.."
 /venv/bin/python harness/extract.py >/dev/null || echo "extract failed (reported by the checks)"
 cd lean
 # each lean process of a proof module needs 0.7-1.8 GB: cap lake's worker threads so a 16 GB machine is enough
-export LEAN_NUM_THREADS=${VERIF_LAKE_THREADS:-4}
-RC=0
+export LEAN_NUM_THREADS=${VERIF_LAKE_THREADS:-6}
+lake build $(cat ../harness/drivers.txt) >/tmp/verif_setup_$$.log 2>&1 || true
 for T in $(cat ../harness/drivers.txt); do
   lake build "$T" >/tmp/verif_setup_$$.log 2>&1 || { echo "setup: target $T failed"; tail -5 /tmp/verif_setup_$$.log; }
 done
